@@ -27,13 +27,20 @@ def make_field_resolver(oracle, log, out_names=False):
 
 
 class AsyncPlan:
-    def __init__(self, seed, field=0, item=0, iterator=0, typ=0):
+    def __init__(self, seed, field=0, item=0, iterator=0, typ=0, long=0):
         self.seed = seed
         self.d = {"field": field, "item": item, "iter": iterator, "type": typ}
+        # long > 0: every non-empty list of a top-level field is stretched to this length (C06's stratum
+        # for the back-pressure of StreamItemQueue, whose capacity of 100 is not configurable from outside)
+        self.long = long
 
     def is_async(self, kind, path):
         from vkit.ref.execute import H
 
+        if self.long and kind == "item" and len(path) == 2 and isinstance(path[1], int):
+            # in a stretched list only the items around the interesting positions are awaitable
+            if path[1] not in (0, 1, 99, 100, 101, self.long - 1):
+                return False
         return self.d[kind] > 0 and H(self.seed, kind, path) % 256 < self.d[kind]
 
 
@@ -96,6 +103,8 @@ def make_async_resolvers(oracle, sched, plan, events, log, out_names=False, sour
         log.append((path, f"{info.parent_type.name}.{info.field_name}", args))
         events.append(("start", path))
         raw = oracle.raw(src, info.parent_type.name, info.field_name, args)
+        if plan.long and len(path) == 1 and isinstance(raw, list) and raw:
+            raw = [raw[i % len(raw)] for i in range(plan.long)]
         if plan.is_async("field", path):
             async def later():
                 stats["inflight"] += 1
